@@ -190,7 +190,7 @@ def main(ck):
     return ck.finish(
         total_n, total_distinct,
         'infergen functions (2-5 untyped locals of int/float/str/bool/int-then-float kinds, range/char/while loops, '
-        'conditionals, + - * // % / ** << >> & | ^, unary ops, len, conditional expressions, in-place operators) x %d inputs '
+        'conditionals, + - * // %% / ** << >> & | ^, unary ops, len, conditional expressions, in-place operators) x %d inputs '
         '(ints at the 2**31/2**63/2**64 boundaries, floats, bool, strings of all unicode kinds); the default-inference build '
         'and the infer_types=False build are both compared with CPython (type-qualified signatures of all returned locals and '
         'the log); distinct = distinct (function, CPython observation)' % ninputs,
